@@ -85,6 +85,7 @@ type c14Scn struct {
 	BufOrder int    `json:"buf_order"` // 0: BUFFER n, PTT TRUE, BUFFER 0, PTT FALSE back to back; 1: BUFFER n, pause, BUFFER 0; 2: BUFFER n, n/2, 0 back to back
 	CloseAns int    `json:"close_ans"` // 0 DISCONNECTED, 1 NEWSTATE DISC, 2 silence
 	Mal      int    `json:"mal"`
+	Mixed    bool   `json:"mixed,omitempty"` // FEC and ERR data frames (and an ID frame) arrive between the ARQ frames: they are not part of the connection's stream
 	Early    bool   `json:"early,omitempty"` // serial mode: the first ARQ frame follows CONNECTED at once (the remote's banner), before the host's next command is answered
 	Deep     bool   `json:"deep,omitempty"`  // small scenario explored one deviation deeper, also in the quick tier
 	Choices  []int  `json:"choices,omitempty"`
@@ -96,7 +97,7 @@ func (s c14Scn) describe() string {
 		mode = "serial"
 	}
 	return fmt.Sprintf("%s %s offline=%v dial=%s frames=%v readbuf=%d late=%v seg=%s writes=%v crcfault=%d buforder=%d closeans=%d mal=%d",
-		s.Kind, mode, s.Offline, s.Dial, s.Frames, s.ReadBuf, s.LateRead, c13SegName(s.Seg), s.Writes, s.CRCFault, s.BufOrder, s.CloseAns, s.Mal) + map[bool]string{true: " early-frame", false: ""}[s.Early]
+		s.Kind, mode, s.Offline, s.Dial, s.Frames, s.ReadBuf, s.LateRead, c13SegName(s.Seg), s.Writes, s.CRCFault, s.BufOrder, s.CloseAns, s.Mal) + map[bool]string{true: " early-frame", false: ""}[s.Early] + map[bool]string{true: " mixed-frame-types", false: ""}[s.Mixed]
 }
 
 type c14Sim struct {
@@ -497,6 +498,15 @@ func c14Harness(sc c14Scn, o *c14Obs) func() {
 							continue
 						}
 						vs.WaitQuiescent()
+						if sc.Mixed {
+							c := sim.data
+							if sc.Serial {
+								c = sim.ctrl
+							}
+							c.Write(ardopData(sc.Serial, "FEC", []byte("fec broadcast data, not for this connection")))
+							c.Write(ardopData(sc.Serial, "ERR", []byte("frame with errors")))
+							c.Write(ardopData(sc.Serial, "IDF", []byte("ID:N0OTHER [JO39EQ]:")))
+						}
 						sim.sendARQ(c13Payload(k, n))
 					}
 					vs.WaitQuiescent()
@@ -716,6 +726,7 @@ func c14Scenarios(thorough bool) []c14Scn {
 			}
 		}
 		out = append(out, c14Scn{Kind: "listen", Serial: serial, Frames: []int{3, 4}})
+		out = append(out, c14Scn{Kind: "inbound", Serial: serial, Frames: []int{5, 4, 6}, Mixed: true}, c14Scn{Kind: "inbound", Serial: serial, Frames: []int{5, 4}, ReadBuf: 2, Mixed: true})
 		if serial {
 			for _, rb := range []int{0, 2} {
 				out = append(out, c14Scn{Kind: "inbound", Serial: true, Frames: []int{5, 4}, ReadBuf: rb, Early: true}, c14Scn{Kind: "listen", Serial: true, Frames: []int{5, 4}, ReadBuf: rb, Early: true})
